@@ -2101,11 +2101,15 @@ impl<'de, 'e> de::Deserializer<'de> for YamlDeserializer<'de, 'e> {
                 seed: K,
                 events: Vec<Ev<'de2>>,
                 kemn: bool,
+                alias_use_location: Option<Location>,
             ) -> Result<K::Value, Error>
             where
                 K: de::DeserializeSeed<'de2>,
             {
                 let mut replay = ReplayEvents::new(events);
+                // An aliased key (`*k: v`) is *used* at the alias token; its recorded events carry
+                // the location of the anchored definition.
+                replay.ref_override = alias_use_location;
 
                 // Get location from replay events for error reporting.
                 let location = replay.reference_location();
@@ -2265,7 +2269,8 @@ impl<'de, 'e> de::Deserializer<'de> for YamlDeserializer<'de, 'e> {
                             }
                         }
 
-                        let key_value = self.deserialize_recorded_key(key_seed, events, kemn)?;
+                        let key_value =
+                            self.deserialize_recorded_key(key_seed, events, kemn, None)?;
                         self.have_key = true;
                         self.pending_value = Some((value_events, reference_location));
 
@@ -2420,8 +2425,14 @@ impl<'de, 'e> de::Deserializer<'de> for YamlDeserializer<'de, 'e> {
                                     }
                                 }
 
-                                let key_value =
-                                    self.deserialize_recorded_key(key_seed, events, kemn_direct)?;
+                                let alias_use_location =
+                                    (key_use_location != location).then_some(key_use_location);
+                                let key_value = self.deserialize_recorded_key(
+                                    key_seed,
+                                    events,
+                                    kemn_direct,
+                                    alias_use_location,
+                                )?;
                                 self.have_key = true;
                                 self.pending_value = None; // value will be read live
 
